@@ -30,6 +30,7 @@ import (
 	gerrors "github.com/tochemey/goakt/v4/errors"
 	"github.com/tochemey/goakt/v4/internal/address"
 	"github.com/tochemey/goakt/v4/internal/internalpb"
+	"github.com/tochemey/goakt/v4/internal/verifhook"
 )
 
 // Ask sends a synchronous message to another actor and expect a response.
@@ -65,18 +66,22 @@ func Ask(ctx context.Context, to *PID, message any, timeout time.Duration) (resp
 	receiveContext := toReceiveContext(ctx, from, to, message, false)
 
 	responseCh := receiveContext.response
+	verifhook.At("ask.enq", receiveContext, 0, 0)
 	to.doReceive(receiveContext)
 	timer := timers.Get(timeout)
+	verifhook.At("ask.select", receiveContext, 0, 0)
 
 	// await patiently to receive the response from the actor
 	// or wait for the context to be done
 	select {
 	case response = <-responseCh:
+		verifhook.At("ask.woke", receiveContext, 1, 0)
 		timers.Put(timer)
 		receiveContext.responseClosed.Store(true)
 		putResponseChannel(responseCh)
 		return
 	case <-ctx.Done():
+		verifhook.At("ask.woke", receiveContext, 2, 0)
 		err = errors.Join(ctx.Err(), gerrors.ErrRequestTimeout)
 		to.handleReceivedErrorWithMessage(noSender, message, err)
 		timers.Put(timer)
@@ -84,6 +89,7 @@ func Ask(ctx context.Context, to *PID, message any, timeout time.Duration) (resp
 		putResponseChannel(responseCh)
 		return nil, err
 	case <-timer.C:
+		verifhook.At("ask.woke", receiveContext, 3, 0)
 		err = gerrors.ErrRequestTimeout
 		to.handleReceivedErrorWithMessage(noSender, message, err)
 		timers.Put(timer)
